@@ -20,6 +20,7 @@ use crate::{Fields, bytes_of};
 pub fn lookup(name: &str) -> Option<Engine> {
     match name {
         "dec5" => Some(dec5),
+        "sized5" => Some(sized5),
         "enc5" => Some(enc5),
         "sniff" => Some(sniff),
         _ => None,
@@ -557,6 +558,16 @@ fn codec_npi(codec: &Codec) -> u64 {
 
 // ---------------------------------------------------------------- dec5
 fn dec5(c: &Fields) -> Fields {
+    dec5_impl(c, false)
+}
+
+/// engine "sized5" (23): every item as the in-flight limiter sees it (`impl SizedRequest for Decoded`):
+/// kind (1 packet, 2 publish, 3 chunk), size(), is_publish(), is_chunk()
+fn sized5(c: &Fields) -> Fields {
+    dec5_impl(c, true)
+}
+
+fn dec5_impl(c: &Fields, sized: bool) -> Fields {
     if c.len() != 3 || c[0].len() != 2 {
         return vec![vec![99]];
     }
@@ -584,6 +595,15 @@ fn dec5(c: &Fields) -> Fields {
         buf.extend_from_slice(piece);
         loop {
             match codec.decode(&mut buf) {
+                Ok(Some(item)) if sized => {
+                    let (size, is_publish, is_chunk) = ntex_mqtt::verif_hooks::sized_v5(&item);
+                    let kind = match item {
+                        Decoded::Packet(..) => 1,
+                        Decoded::Publish(..) => 2,
+                        Decoded::PayloadChunk(..) => 3,
+                    };
+                    out.push(vec![kind, u64::from(size), u64::from(is_publish), u64::from(is_chunk)]);
+                }
                 Ok(Some(item)) => {
                     let mut d = D(Vec::new());
                     match item {
